@@ -48,7 +48,7 @@ impl Verdict {
 
 fn verdict(s: &RS) -> Verdict {
     let cs = to_partial_dsym(s);
-    match std::panic::catch_unwind(std::panic::AssertUnwindSafe(|| is_euclidean(&cs))) {
+    match crate::engine::in_subject(|| std::panic::catch_unwind(std::panic::AssertUnwindSafe(|| is_euclidean(&cs)))) {
         Err(e) => Verdict::Panic(panic_message(&e)),
         Ok(Euclidean::Yes) => Verdict::Yes,
         Ok(Euclidean::No(m)) => Verdict::No(m),
